@@ -403,7 +403,9 @@ func (d *Data) queryBackingStore(ctx storage.VersionedCtx, w http.ResponseWriter
 			numMatches++
 			return
 		}
-		out := removeReservedFields(value, showFields)
+		// honor the "fields" option like the in-memory query does
+		showUser, showTime := showFields.Bools()
+		out := selectFields(value, fieldMap, showUser, showTime)
 		jsonBytes, err := json.Marshal(out)
 		if err != nil {
 			dvid.Errorf("error in JSON encoding: %v\n", err)
